@@ -24,6 +24,12 @@ def confBlocksOf : List PBlock → Option (List ConfBlock)
     | some e, some r' => some ({ paths := b.paths, expr := e } :: r')
     | _, _ => none
 
+/-- How `getopt(3)` reads its option string: each letter is an option, a following `:` says it takes an argument. -/
+def optSpec : List Char → List (Char × Bool)
+  | [] => []
+  | c :: ':' :: r => (c, true) :: optSpec r
+  | c :: r => (c, false) :: optSpec r
+
 /-- `main` after `getopt`, from the text of the configuration file and the `-D name=value` options.
 The home directory used by `~` expansion is `env.home`; `rxOk` is `regcomp`. -/
 def mainText (env : PEnv) (orc : EvalOracles) (rxOk : Pat → Bool) (defs : List (Bytes × Bytes))
